@@ -22,7 +22,7 @@ func init() {
 			"relations: zoom-out(ID_fine(p)) == {ID_coarse(p)}; the point's voxels at all three zoom pairs pairwise overlap (both argument orders); for an ID (the fine voxel or a random one with negative f) and dh,dv <= 3: " +
 			"every element of the zoom-in maps back to exactly {id}; merging the complete zoom-in at the ID's own zooms returns exactly {id}. Non-trivial = fine != coarse; distinct by (point, zooms).",
 		Assume: []string{"the point lookup's nested floors are exact in float64 (scaling by powers of two), so no band is needed between zooms"},
-		N:      tierN(80_000, 3_000_000),
+		N:      tierN(120_000, 3_000_000),
 		Floor:  tierN(1000, 10000),
 		Run:    runC09,
 	})
